@@ -1422,7 +1422,7 @@ func (c *cluster) stepTruncate(l, f int, fail bool) bool {
 	n := c.node(f)
 	// every Truncate request a leader issues is kept: the network may deliver a copy of it again later
 	c.truncs[f] = append(c.truncs[f], sentTruncate{from: l, req: &proto.TruncateRequest{Namespace: req.Namespace, Shard: req.Shard, Term: req.Term,
-		HeadEntryId: &proto.EntryId{Term: req.HeadEntryId.Term, Offset: req.HeadEntryId.Offset}}})
+		HeadEntryId: &proto.EntryId{Term: req.HeadEntryId.Term, Offset: req.HeadEntryId.Offset}}, toInc: c.node(f).inc})
 	if fail || !c.reachable(l, f) {
 		c.event("truncate %d>%d: unreachable", l, f)
 		c.release(g, nil, errUnavailable)
@@ -1471,7 +1471,9 @@ func (c *cluster) redeliverable(f int) *sentTruncate {
 	}
 	l := c.truncs[f]
 	for i := len(l) - 1; i >= 0; i-- {
-		if l[i].req.Term == term {
+		// (a copy that is still in the network belongs to a connection of the process the original was sent to: it
+		// does not reach the process that replaces it after a crash)
+		if l[i].req.Term == term && l[i].toInc == n.inc {
 			return &l[i]
 		}
 	}
